@@ -7,6 +7,8 @@ for m in mutants/${1:-*}.diff; do
 	id=$(echo "$b" | cut -c1-3 | tr c C)
 	extra=""
 	case "$b" in
+	ok-over-read) id="C01"; extra="C07 C09 C12 C14" ;; # conforms to everything but C06's first clause on sources that end after exactly 4n/3 bytes
+	ok-*) id="C01"; extra="C02 C03 C04 C06 C07 C09 C10 C11 C12 C13 C14 C15" ;;
 	c02-*) extra="C03 C15" ;;
 	c03-*) extra="C15" ;;
 	c04-shared-seed-buffer) extra="C13" ;;
